@@ -1233,8 +1233,27 @@ func (w *World) adminOp(c *simClient, it *Item) {
 		// the public SetHook API, called by the test that owns the emulator while
 		// its clients are active; the hook passes every command through
 		inst := w.emus[i]
+		answer := it.S == "answer"
 		f = func() {
-			inst.eng.SetHook(func(cmd string, args map[string]any) (bool, any, error) { return false, nil, nil })
+			inst.eng.SetHook(func(cmd string, args map[string]any) (bool, any, error) {
+				if answer && cmd == "echo" {
+					// (C15) the hook answers some ECHOs itself, with values that
+					// only RESP3 can carry natively
+					switch m, _ := args["message"].(string); m {
+					case "hook:map":
+						return true, map[string]any{"pi": 3.25, "ok": true, "n": 5, "l": []any{1.5, map[string]any{"x": false}, "s"}}, nil
+					case "hook:double":
+						return true, 2.5, nil
+					case "hook:bool":
+						return true, true, nil
+					case "hook:set":
+						return true, map[any]struct{}{"a": {}, "b": {}}, nil
+					case "hook:list":
+						return true, []any{true, 0.5, map[string]any{"k": 1.25}}, nil
+					}
+				}
+				return false, nil, nil
+			})
 		}
 	default:
 		panic("unknown admin op " + it.Op)
